@@ -417,8 +417,19 @@ Definition resize_fill_alias (guarded cls : bool) (a : arr Z) (n i : Z) : option
   | _ => None
   end.
 
+(* Array(T *array, size, copy = false): the Array adopts the caller's malloc'ed block, whose elements the caller
+   constructed — [16; b; v1 .. vn]. No element is constructed by the library; the state is the one the
+   initializer-list constructor reaches (ArrayAliasProofs.adopt_is_list_state), so every history that starts with
+   an adoption continues exactly like the history that starts with that constructor. *)
+Definition adopt (vals : list Z) : arr Z := mkArr (Zlen vals) (map Live vals).
+
 Definition arr_step_d (guarded : bool) (vr : avariant) (cls : bool) (e : aenv) (op : list Z) : aenv * aoutcome :=
   match op with
+  | 16 :: b :: vals =>
+      match aenv_get e b with
+      | None => if slot_ok b e then (aenv_set e b (Some (adopt vals)), Some ([], [])) else (e, None)
+      | Some _ => (e, None)
+      end
   | [15; b; n; i] =>
       match aenv_get e b with
       | Some a => match resize_fill_alias guarded cls a n i with
